@@ -497,6 +497,7 @@ func runC13(t *T) {
 			dest.core.faultAt = c.Draw(4)
 			dest.core.short = c.Chance(1, 2)
 			dest.core.lossyClose = true
+			dest.core.persistent = c.Chance(1, 2) // several background writers fail, not just one
 		}
 		for i := 0; i < nopen; i++ {
 			i := i
